@@ -79,7 +79,9 @@ def generate(rng, tier, shard, nshards):
                                  {'fontfamily': 'monospace'}, {'ha': 'right', 'va': 'bottom', 'size': 8}])
             elif cls == 'PointPixelRegion':
                 kw = rng.choice([{'markersize': 13}, {'markeredgecolor': 'cyan'}, {'marker': 's'}, {'alpha': 0.25}, {'ms': 15}, {'mec': 'cyan'},
-                                 {'mew': 2.5}, {'markeredgewidth': 3.5}])
+                                 {'mew': 2.5}, {'markeredgewidth': 3.5}, {'fillstyle': 'full', 'markerfacecolor': 'yellow'}, {'fillstyle': 'full', 'markerfacecolor': 'yellow'},
+                                 {'fillstyle': 'left', 'markerfacecolor': 'yellow', 'markeredgecolor': 'cyan'}, {'fillstyle': 'full', 'mfc': 'yellow'},
+                                 {'markerfacecolor': 'yellow'}, {'fillstyle': 'full', 'mfc': 'yellow', 'mec': 'cyan'}, {'fillstyle': 'full'}])
             else:
                 kw = rng.choice([{'edgecolor': 'cyan'}, {'linewidth': 7.5}, {'fill': True, 'facecolor': 'yellow'}, {'alpha': 0.25}, {'linestyle': '-.'},
                                  {'ec': 'cyan'}, {'lw': 6.5}, {'ls': '-.'}, {'fill': True, 'fc': 'yellow'}])
@@ -218,8 +220,11 @@ def run_case(case, obs):
         obs.check(ok, 'point-artist-position', f'point artist at {xy.tolist()}, region centre minus origin = ({reg.center.x - ox}, {reg.center.y - oy})', 'point-position')
         for k, v in kw.items():
             got = {'markersize': art.get_markersize(), 'ms': art.get_markersize(), 'markeredgecolor': art.get_markeredgecolor(), 'mec': art.get_markeredgecolor(),
-                   'marker': art.get_marker(), 'alpha': art.get_alpha(), 'mew': art.get_markeredgewidth(), 'markeredgewidth': art.get_markeredgewidth()}[k]
-            obs.check(colour_eq(got, v) if k in ('markeredgecolor', 'mec') else got == v, 'caller-kwargs-do-not-override', f'{cls}: {k}={v!r} not applied (got {got!r})', 'kwargs-override')
+                   'marker': art.get_marker(), 'alpha': art.get_alpha(), 'mew': art.get_markeredgewidth(), 'markeredgewidth': art.get_markeredgewidth(),
+                   'fillstyle': art.get_fillstyle(), 'markerfacecolor': art.get_markerfacecolor(), 'mfc': art.get_markerfacecolor()}[k]
+            if k in ('markerfacecolor', 'mfc') and art.get_fillstyle() == 'none':
+                continue          # matplotlib reports 'none' as the face colour of an unfilled marker whatever colour was set
+            obs.check(colour_eq(got, v) if k in ('markeredgecolor', 'mec', 'markerfacecolor', 'mfc') else got == v, 'caller-kwargs-do-not-override', f'{cls}: {k}={v!r} not applied (got {got!r})', 'kwargs-override')
         kw = {{'ms': 'markersize', 'mec': 'markeredgecolor', 'mew': 'markeredgewidth'}.get(k, k): v for k, v in kw.items()}
         if 'symbol' in reg.visual and 'marker' not in kw:
             obs.check(art.get_marker() == reg.visual['symbol'], 'visual-not-applied', f'visual symbol {reg.visual["symbol"]!r} not applied as marker (got {art.get_marker()!r})', 'visual-applied')
